@@ -389,7 +389,7 @@ static void gen_c10(plan_t *p, rng_t *r)
     plan_knob(p, "alloc.fill", rng_range(r, 0, 4));
     plan_knob(p, "alloc.realloc", rng_range(r, 0, 2));
     plan_knob(p, "alloc.reuse", rng_range(r, 0, 2));
-    if (rng_chance(r, 1, 3)) { o = plan_op(p, 0, "env", 1, (long)rng_chance(r, 1, 2)); op_str(o, "HOME", 4); op_str2(o, "", 0); }
+    if (rng_chance(r, 1, 10)) { o = plan_op(p, 0, "env", 1, (long)rng_chance(r, 1, 2)); op_str(o, "HOME", 4); op_str2(o, "", 0); }
     if (rng_chance(r, 1, 3)) plan_op(p, 0, "builtin", 1, (long)rng_range(r, 1, 5));
     if (rng_chance(r, 1, 10)) { static const int el[] = { 120, 127, 128, 300, 4096, 20470, 20478, 20479, 20480, 20481, 30000, 65000 }; plan_knob(p, rng_chance(r, 1, 2) ? "env.v1len" : "env.homelen", el[rng_below(r, 12)]); }
     if (rng_chance(r, 1, 12)) { static const int tl[] = { 200, 230, 238, 239, 240, 241, 242, 243, 244, 245, 250, 256, 300 }; plan_knob(p, "tmpdir", rng_range(r, 1, 5)); plan_knob(p, "tmpdir.len", tl[rng_below(r, 13)]); }
